@@ -10,7 +10,9 @@ package relationtuple
 // db: ghost version of the database content (C17): read operations leave it unchanged.
 
 // stored tuples always carry a subject; a subject interface never wraps a nil pointer
-//@ spec wfsubject(s Subject) bool = s != nil && (istype(s, *SubjectSet) ==> as(s, *SubjectSet) != nil) && (istype(s, *SubjectID) ==> as(s, *SubjectID) != nil)
+// and is one of the two subject kinds of this package (the interface is open in Go's type
+// system; every producer in the repository builds one of the two)
+//@ spec wfsubject(s Subject) bool = s != nil && (istype(s, *SubjectSet) || istype(s, *SubjectID)) && (istype(s, *SubjectSet) ==> as(s, *SubjectSet) != nil) && (istype(s, *SubjectID) ==> as(s, *SubjectID) != nil)
 
 //@ ghostvar faulted bool
 //@ ghostvar db int
@@ -119,12 +121,59 @@ package relationtuple
 //@   ensures[C17] read-only-mapper: m.ReadOnly ==> db == old(db)
 //@   ensures err == nil ==> res != nil && (res.Subject == nil || wfsubject(res.Subject))
 
-//@ func (*Mapper).ToTuple
+// ---- C16: the batched mappers. The mapping manager (ASSUMED contract, implemented by the
+// SQL persister) maps position by position: muuid(s) is the UUID it assigns to the string s,
+// mstr(u) the string it stores for the UUID u.
+//@ ghost muuid(string) uuid.UUID
+//@ ghost mstr(uuid.UUID) string
+//@ func MappingManager.MapUUIDsToStrings
 //@   trusted
-//@   requires m != nil && ctx != nil
+//@   modifies nothing
+//@   ensures result1 == nil ==> len(result0) == len(u) && (forall j in 0..len(u) :: result0[j] == mstr(u[j]))
+//@ func MappingManager.MapStringsToUUIDsReadOnly
+//@   trusted
+//@   modifies nothing
+//@   ensures result1 == nil ==> len(result0) == len(s) && (forall j in 0..len(s) :: result0[j] == muuid(s[j]))
+//@ func MappingManager.MapStringsToUUIDs
+//@   trusted
+//@   modifies db
+//@   ensures result1 == nil ==> len(result0) == len(s) && (forall j in 0..len(s) :: result0[j] == muuid(s[j]))
+//@ func mapperDependencies.MappingManager
+//@   trusted
+//@   pure
+//@   ensures result != nil
+
+// The mappers register one deferred assignment per looked-up value (success.do) and run
+// them after the lookup (success.apply, deferred). The closures are first-class values:
+// the loop invariants say which closure sits at which position of onSuccess.fs and which
+// cells it captured; apply's loop is specified here, in the mapper's vocabulary.
+//@ func (*Mapper).ToTuple
+//@   props C16
+//@   requires m != nil && ctx != nil && m.D != nil
+//@   requires[C16] subject-present: forall i in 0..len(ts) :: ts[i] != nil && wfsubject(ts[i].Subject)
 //@   modifies db
 //@   ensures db == old(db)
 //@   ensures err == nil ==> len(res) == len(ts) && (forall i in 0..len(res) :: onesubject(res[i]))
+//@   ensures[C16] fields-position-wise: err == nil ==> forall i in 0..len(ts) :: res[i] != nil && res[i].Namespace == ts[i].Namespace && res[i].Relation == ts[i].Relation && res[i].Object == mstr(ts[i].Object)
+//@   ensures[C16] subject-id-position-wise: err == nil ==> forall i in 0..len(ts) :: istype(ts[i].Subject, *SubjectID) ==> res[i].SubjectID != nil && deref(res[i].SubjectID) == mstr(as(ts[i].Subject, *SubjectID).ID)
+//@   ensures[C16] subject-set-position-wise: err == nil ==> forall i in 0..len(ts) :: istype(ts[i].Subject, *SubjectSet) ==> res[i].SubjectSet != nil && res[i].SubjectSet.Object == mstr(as(ts[i].Subject, *SubjectSet).Object) && res[i].SubjectSet.Namespace == as(ts[i].Subject, *SubjectSet).Namespace && res[i].SubjectSet.Relation == as(ts[i].Subject, *SubjectSet).Relation
+//@   loop 1 invariant len(res) == $n
+//@   loop 1 invariant len(u) == 2*$n
+//@   loop 1 invariant onSuccess != nil && onSuccess.err == addr(err)
+//@   loop 1 invariant len(onSuccess.fs) == 2*$n
+//@   loop 1 invariant err == nil
+//@   loop 1 invariant fresh(onSuccess) && (isnil(onSuccess.fs) || fresh(onSuccess.fs)) && fresh(res) && fresh(u)
+//@   loop 1 invariant forall j in 0..len(res) :: res[j] != nil && fresh(res[j])
+//@   loop 1 invariant forall j in 0..len(res) :: res[j].Namespace == ts[j].Namespace && res[j].Relation == ts[j].Relation
+//@   loop 1 invariant forall j in 0..len(res) :: res[j].SubjectID == nil && res[j].SubjectSet == nil
+//@   loop 1 invariant forall a in 0..len(res) :: forall b in 0..len(res) :: a != b ==> res[a] != res[b]
+//@   loop 1 invariant forall j in 0..len(res) :: u[2*j+1] == ts[j].Object && (istype(ts[j].Subject, *SubjectID) ==> u[2*j] == as(ts[j].Subject, *SubjectID).ID) && (istype(ts[j].Subject, *SubjectSet) ==> u[2*j] == as(ts[j].Subject, *SubjectSet).Object)
+//@   loop 1 invariant forall q in 0..len(onSuccess.fs) :: q % 2 == 1 ==> isclo(onSuccess.fs[q], "$3") && capt(onSuccess.fs[q], "$3", i) == q / 2 && captptr(onSuccess.fs[q], "$3", mt) == res[q / 2] && captptr(onSuccess.fs[q], "$3", s) == addr(s)
+//@   loop 1 invariant forall q in 0..len(onSuccess.fs) :: (q % 2 == 0 && istype(ts[q / 2].Subject, *SubjectID)) ==> isclo(onSuccess.fs[q], "$1") && capt(onSuccess.fs[q], "$1", i) == q / 2 && captptr(onSuccess.fs[q], "$1", mt) == res[q / 2] && captptr(onSuccess.fs[q], "$1", s) == addr(s)
+//@   loop 1 invariant forall q in 0..len(onSuccess.fs) :: (q % 2 == 0 && istype(ts[q / 2].Subject, *SubjectSet)) ==> isclo(onSuccess.fs[q], "$2") && capt(onSuccess.fs[q], "$2", i) == q / 2 && captptr(onSuccess.fs[q], "$2", mt) == res[q / 2] && captptr(onSuccess.fs[q], "$2", s) == addr(s) && capt(onSuccess.fs[q], "$2", sub) == as(ts[q / 2].Subject, *SubjectSet)
+//@   inlined (*success).apply loop 1 invariant forall j in 0..len(res) :: (2*j+1 < $n ==> res[j].Object == s[2*j+1]) && (2*j >= $n ==> res[j].SubjectID == nil && res[j].SubjectSet == nil)
+//@   inlined (*success).apply loop 1 invariant forall j in 0..len(res) :: (2*j < $n && istype(ts[j].Subject, *SubjectID)) ==> res[j].SubjectID != nil && deref(res[j].SubjectID) == s[2*j] && res[j].SubjectSet == nil
+//@   inlined (*success).apply loop 1 invariant forall j in 0..len(res) :: (2*j < $n && istype(ts[j].Subject, *SubjectSet)) ==> res[j].SubjectID == nil && res[j].SubjectSet != nil && res[j].SubjectSet.Object == s[2*j] && res[j].SubjectSet.Namespace == as(ts[j].Subject, *SubjectSet).Namespace && res[j].SubjectSet.Relation == as(ts[j].Subject, *SubjectSet).Relation
 
 //@ spec wfrh(h *handler) bool = h != nil && h.d != nil
 
